@@ -210,15 +210,17 @@ Print Assumptions leaf_lines_indent.
    followed by exactly k indent units, k = number of elements open at that point, one less when the line starts with a
    closing tag (the closing tag then has the indentation of its opening tag's line: C12_close_aligned).
    DOMAIN, exactly:
-     cfg_depth c         newline ++ baseIndent and indent do not start with '<'; comments off (they are additive, see
-                         comments_additive); no '<', CR, LF in the markup.attributes / markup.valuePrefix tables
+     cfg_depth c         newline ++ baseIndent and indent do not start with '<'; comments off, or on with templates no
+                         line of which is read as a tag chunk (`<!-- ...` is none: the default templates qualify);
+                         no '<', CR, LF in the markup.attributes / markup.valuePrefix tables
      depth_dom c forest  for every node: name without '<', CR, LF, not starting with '/' or '!'; attributes only on named
                          nodes (as the resolver guarantees: implicit tag); no '<' in text; attribute names and values
                          without '<', CR, LF (a line break inside an opening tag is indented by the elements open
                          BEFORE that tag: outside the tag-chunk reading of open_at); and for every named element
-       last_ok           its last child is an element, or is line-broken itself (should_format), or is a text that ends
-                         on its line (ends_text: no children and a non-empty last line; or a text without field whose
-                         last child is not line-broken and ends on its line).  Technical: keeps `</name>` from
+       last_ok           its last child is an element (whose comment.after, if it gets one, ends on its line:
+                         comment_quiet), or is line-broken itself (should_format), or is a text that ends on its line
+                         (ends_text: no children and a non-empty last line; or a text without field whose last child
+                         is not line-broken and ends on its line).  Technical: keeps `</name>` from
                          following a pending empty line; no deviation of the code is known outside it (21k generated
                          abbreviations with text nodes with children, three inlineBreak values: none)
        snippet_ok        if its text has a field and it has children (push_snippet path): the text has no line break
@@ -228,7 +230,7 @@ Print Assumptions leaf_lines_indent.
    children, get the level of the element instead of level + 1): C12_depth_multiline_field_text_refuted and
    C12_depth_text_after_children_refuted prove the deviation on the model.
    Not covered: line breaks inside attribute values and inside field placeholders (the latter are no newline events:
-   C13), comment.enabled. *)
+   C13).  (tag_chunks_are_events, which justifies the reading of open_at, is proved for comments off.) *)
 Theorem C12_indent_is_depth c forest :
   oc_format_skip c = [] -> cfg_depth c = true -> depth_dom c forest = true ->
   forall pre s rest, fchunks (html_format c forest) = pre ++ CT true s :: rest ->
@@ -240,7 +242,7 @@ Print Assumptions C12_indent_is_depth.
 
 (* the reading of open_at is the reading of the output: the tag chunks of the stream are the events of the tree, one by one *)
 Theorem tag_chunks_are_events c forest :
-  cfg_depth c = true -> depth_dom c forest = true ->
+  oc_comment_enabled c = false -> cfg_depth c = true -> depth_dom c forest = true ->
   flat_map chunk_tags (fchunks (html_format c forest)) = map erase (flat_map (tree_events c) forest).
 Proof. exact (FormatDepthFull.tag_chunks_are_events c forest). Qed.
 Print Assumptions tag_chunks_are_events.
@@ -447,3 +449,15 @@ Example domains_on_parser_output :
   | _ => False
   end.
 Proof. vm_compute. repeat split. Qed.
+
+(* Non-vacuity with comments on: <div id="a"><p>hi</p></div> under the default comment templates is in both domains;
+   the comment goes on a line of its own after </div>, with 0 units, no element open. *)
+Example indent_is_depth_comments_nonvacuous :
+  let t := [ANode (Some [100;105;118]%N) None None
+                  (Some [mkAAttr (Some [105;100]%N) (Some [VStr [97]%N]) VRaw false false false])
+                  [ANode (Some [112]%N) (Some [VStr [104;105]%N]) None None [] false] false] in
+  let c := mkOconfig (mkOfmt [9] [] [10])%N [] [] [] true false [] [] 3 false [] s_html [] true [[105;100]]%N []
+                     [10;60;33;45;45;32;47;91;35;73;68;93;91;46;67;76;65;83;83;93;32;45;45;62]%N false None None in
+  oc_comment_enabled c = true /\ cfg_depth c = true /\ depth_dom c t = true /\ align_dom c t = true /\
+  length (filter is_nl (fchunks (html_format c t))) = 3.
+Proof. cbv zeta. repeat split; vm_compute; reflexivity. Qed.
